@@ -100,7 +100,6 @@ Proof.
     eapply (GEN _ (U _)); simpl; auto. apply SF.
   - eapply (GEN _ (U _)); simpl; auto. apply SF.
   - eapply (GEN _ (U _)); simpl; auto. apply SF. apply upd_length.
-  - eapply (GEN _ (U _)); simpl; auto. rewrite ST. exact SF.
 Qed.
 
 Theorem flat_inv_reach : forall p s, nm = p_nmutex p -> nx = length (p_mem p) -> flat p = true -> reach p s -> flat_inv s.
@@ -127,7 +126,7 @@ Lemma marker_moves : forall s j r g b e, nth_error (rs s) j = Some r -> parked s
   unw r = false -> ext r = Some e -> exists s', step s j 0 = Some s'.
 Proof.
   intros s j r g b [tb bb] R P ST U E. unfold step. rewrite R, P, ST, U, E.
-  destruct (fk g) as [| m | | [] b']; destruct tb; destruct (fops g); eauto.
+  destruct (fk g) as [| m | | [] b']; destruct tb; try destruct (Nat.eqb b' bb); simpl; eauto.
 Qed.
 
 (* a routine whose top frame runs lock-free code can always move *)
